@@ -149,11 +149,17 @@ impl Method for PhoneticMethod {
                 // Update the auto correct entries if only the file was modified in the meantime.
                 if modified > self.modified {
                     // An unreadable file is treated as an absent one.
-                    self.suggestion.user_autocorrect =
-                        serde_json::from_slice(&read(&mut file)).unwrap_or_default();
+                    self.suggestion.set_user_autocorrect(
+                        serde_json::from_slice(&read(&mut file)).unwrap_or_default(),
+                    );
                     self.modified = modified;
                 }
             }
+        } else if self.modified != SystemTime::UNIX_EPOCH {
+            // The file is gone, so forget its entries as a new context would do.
+            self.suggestion
+                .set_user_autocorrect(HashMap::with_hasher(RandomState::new()));
+            self.modified = SystemTime::UNIX_EPOCH;
         }
     }
 
